@@ -63,7 +63,7 @@ CHECKS = {
    'All 256x256 permission pairs directly and through the full engine path (lists of several masks also through Engine::new + deserialize of the built engine); every dependency graph on 3 nodes (110 592 base graphs) x node permissions x injection lists in every order through the public get_scriptlet_resources (hash order enumerated, not drawn); every argument string of <= 3 (quick) / 4 (thorough) symbols over 13 symbols x 8 spellings x 3 positions; all pairs of 20 +js bodies for exceptions, over 8 exception locations (two of them double negations, which must change nothing); all pairs of spelled arguments (state of the splitter across arguments); a second, rejected offer of a stored resource name.',
    'Ambiguous +js spellings (unbalanced quotes, text after a closing quote, runs of backslashes before a separator) are Unspecified; the emitted literal must still be well-formed.', 'DESIGN §4 C18'),
  'C19': ('SX+BX', 'model_checking', 'stateless DFS over thread interleavings of the real Sync build with iterative preemption bounding (CHESS-style), blocking decided by the real Mutex::try_lock through a cfg-guarded seam; plus cross-configuration differential',
-   'Thirteen base thread plans (every entry point that takes a shared reference: check, restricted check, csp, cosmetic, class/id, serialize_raw, get_regex_debug_info, tag_exists) and history plans (a single-thread preamble - every tagged regex rule used, tag switches, reloads, a mid-range discard policy with explicit clock steps on the virtual clock of the hooks - before 2x1 / 2x2 / 2x3 thread plans; four cold-cache plans under the default policy in which one request visits several unused regex rules while the other thread uses one of them) (2x2, 3x1, 3x2, 2x3, mixed queries, URL-rewriting rules, blocked+excepted+rewritten requests, pages with opposite generichide verdicts, pages with different CSP answers) of real OS threads on one shared engine, all schedules with <= 2 (quick) / <= 3-4 (thorough) preemptions; every answer compared with the sequential answer; deadlock, panic and poisoning detected; every violating schedule replayed twice. The single-thread build writes answer hashes for 3 722 rule lists x 1 881 requests and three special lists whose compiled regexes are between 1 and 10 MiB, the thread-safe build recomputes them.',
+   'Fourteen base thread plans (every entry point that takes a shared reference: check, restricted check, csp, cosmetic, class/id, serialize_raw, get_regex_debug_info, tag_exists) and history plans (a single-thread preamble - every tagged regex rule used, tag switches, reloads, a mid-range discard policy with explicit clock steps on the virtual clock of the hooks - before 2x1 / 2x2 / 2x3 thread plans; four cold-cache plans under the default policy in which one request visits several unused regex rules while the other thread uses one of them) (2x2, 3x1, 3x2, 2x3, mixed queries, URL-rewriting rules, blocked+excepted+rewritten requests, pages with opposite generichide verdicts, pages with different CSP answers) of real OS threads on one shared engine, all schedules with <= 2 (quick) / <= 3-4 (thorough) preemptions; every answer compared with the sequential answer; deadlock, panic and poisoning detected; every violating schedule replayed twice. The single-thread build writes answer hashes for 3 722 rule lists x 1 881 requests and three special lists whose compiled regexes are between 1 and 10 MiB, the thread-safe build recomputes them.',
    'No preemption between scheduling points: exhaustive for the events of the seam, sound for the program as long as nothing shared is mutated outside the regex-manager lock. That assumption is only sampled: a free-running stress pass (8 real threads, every answer compared with the sequential one; two phases: default discard policy, and a policy whose cleanup is due at every acquisition) in both tiers and a Miri pass in the thorough tier; neither is exhaustive and the evidence says so. A thread blocked on a lock outside the seam is reported by a watchdog as a deadlock of that schedule. Statements a change adds beside the hooked acquisition branch are not executed under the explorer (only by the stress pass). Weak memory not modelled.', 'DESIGN §4 C19, §5'),
  'C20': ('BX', 'model_checking', T_BX + 'post-conditions on every emitted rule (ASCII, Safari regex-subset recogniser, ordering, filters_used) + inclusion against the real matcher',
    'Every pattern body of <= 6 (quick) / 7 (thorough) symbols x anchor modes x option frames as singleton sets, the single-edit neighbourhood of a 135-rule alphabet, and all ordered lists of <= 2/3 alphabet rules.',
